@@ -27,6 +27,8 @@ type simConn struct {
 	start    time.Time
 	notify   chan struct{} // driver wake-up: the broker wrote or closed
 	skew     time.Duration
+	failNextWrite bool
+	resetAt  int64 // when the link went down because a write failed (-1: not that way)
 	// counters for oracles
 	writesAfterClose int
 	bytesOut         int64
@@ -52,7 +54,7 @@ var simConnSeq int64
 
 func newSimConn(stamp *int64, start time.Time, notify chan struct{}) *simConn {
 	n := atomic.AddInt64(&simConnSeq, 1)
-	return &simConn{wake: make(chan struct{}, 1), stamp: stamp, start: start, notify: notify, skew: time.Duration(50+n%200) * time.Microsecond}
+	return &simConn{wake: make(chan struct{}, 1), stamp: stamp, start: start, notify: notify, skew: time.Duration(50+n%200) * time.Microsecond, resetAt: -1}
 }
 
 func (c *simConn) tell() {
@@ -120,6 +122,17 @@ func (c *simConn) Write(p []byte) (int, error) {
 		return 0, errClosed
 	}
 	if c.reset {
+		return 0, errReset
+	}
+	if c.failNextWrite {
+		// the link dies under this write: nothing reaches the client, reads fail from now on
+		c.failNextWrite = false
+		c.reset = true
+		c.resetAt = time.Since(c.start).Milliseconds()
+		select {
+		case c.wake <- struct{}{}:
+		default:
+		}
 		return 0, errReset
 	}
 	if !c.wdl.IsZero() && !time.Now().Before(c.wdl) {
@@ -217,4 +230,15 @@ func (c *simConn) linkDown() bool {
 	c.mu.Lock()
 	defer c.mu.Unlock()
 	return c.reset || c.inEOF
+}
+
+func (c *simConn) armWriteFailure() {
+	c.mu.Lock()
+	c.failNextWrite = true
+	c.mu.Unlock()
+}
+func (c *simConn) writeFailedAt() int64 {
+	c.mu.Lock()
+	defer c.mu.Unlock()
+	return c.resetAt
 }
